@@ -63,6 +63,10 @@ let gen_of_toks ts = match ts with
   | "l" :: _ :: a -> GLine (List.map z_of_string a)
   | _ -> failwith "gen"
 let is_point = function GPoint _ -> true | _ -> false
+(* Grid_Generator_System::insert drops a parameter whose coefficients are all zero (documented): such a row is
+   never part of a system handed to Grid(gs) / add_grid_generators(gs) *)
+let zero_param = function GParam (v, _) -> List.for_all z_is_zero v | _ -> false
+let system_rows gs = List.filter (fun g -> not (zero_param g)) gs
 let gen_div_ne1 = function GPoint (_, d) | GParam (_, d) -> d <> XH | GLine _ -> false
 
 (* "k ; item ; item" -> items *)
@@ -85,6 +89,30 @@ let check_gens (r : robj) (g : ggen list) : bool =
   get "gens_equiv" (gens_equiv (nat r.n) (gens_of_ppl g) r.g)
 
 let need_cv what (r : robj) = match r.cv with Some c -> c | None -> raise (Unknown ("no verified congruences for " ^ what))
+
+(* least grid containing X \ Y (X by generators, Y by verified congruences).  NOT theorem-backed as a whole: the
+   pieces (intersection, inclusion, membership) are the verified functions, the case analysis is this glue:
+   X \ Y = X \ Z with Z = X /\ Y; empty if X <= Z; X if Z is empty; if Z has index 2 in X (X = Z u W, W = x1 + dirs Z,
+   2 (x1 - z0) in dirs Z) the other coset W; otherwise (index > 2 or infinite) the cosets other than Z generate X. *)
+let ref_diff n gx cy =
+  let z = get "gens_add_cgs" (gens_add_cgs n gx cy) in
+  if is_empty_b z then gx
+  else if get "gens_incl" (gens_incl n gx z) then []
+  else match alat_of gx, alat_of z with
+    | Some sx, Some sz ->
+        let dz = { pt = []; pars = sz.pars; lins = sz.lins } and lz = { pt = []; pars = []; lins = sz.lins } in
+        let is_empty_res = function Empty -> true | Lat _ -> false | Fail -> raise (Unknown "mem") in
+        if List.exists (fun l -> is_empty_res (mem n lz l)) sx.lins then gx
+        else begin
+          let cand = sx.pt :: List.map (vadd sx.pt) sx.pars in
+          match List.find_opt (fun c -> is_empty_res (mem n sz c)) cand with
+          | None -> raise (Unknown "difference: no generator of X outside Z")
+          | Some x1 ->
+              let two_d = vscale (inject_Z (z_of_int 2)) (vsub x1 sz.pt) in
+              let w = QPoint x1 :: (List.map (fun v -> QParam v) sz.pars @ List.map (fun v -> QLine v) sz.lins) in
+              if not (is_empty_res (mem n dz two_d)) && get "gens_incl" (gens_incl n gx (join z w)) then w else gx
+        end
+    | _ -> raise (Unknown "difference")
 
 (* ---- state ---- *)
 let case_id = ref "?"
@@ -134,7 +162,7 @@ let apply (si : stepinfo) : string option =
            let c = List.map cg_of_toks (fst (groups (n + 2) r)) in
            set { n; g = get "cgs_to_gens" (cgs_to_gens (nat n) c); cv = Some c }; Some "ok"
        | "dim" :: n :: "gens" :: r -> let n = int_of_string n in
-           let g = List.map gen_of_toks (fst (groups (n + 2) r)) in
+           let g = system_rows (List.map gen_of_toks (fst (groups (n + 2) r))) in
            if g = [] then (set { n; g = []; cv = Some [false_cg] }; Some "ok")
            else if not (List.exists is_point g) then Some "exn invalid_argument"
            else (set { n; g = gens_of_ppl g; cv = None }; Some "ok")
@@ -147,7 +175,7 @@ let apply (si : stepinfo) : string option =
                    cv = (match x.cv with Some c0 -> Some (c0 @ c) | None -> None) };
       Some "ok"
   | "addgen" | "addgens" ->
-      let gs = if si.op = "addgens" then List.map gen_of_toks (fst (groups (x.n + 2) rest)) else [gen_of_toks rest] in
+      let gs = if si.op = "addgens" then system_rows (List.map gen_of_toks (fst (groups (x.n + 2) rest))) else [gen_of_toks rest] in
       if gs = [] then Some "ok"
       else if is_empty_b x.g && not (List.exists is_point gs) then Some "exn invalid_argument"
       else begin
@@ -188,6 +216,9 @@ let apply (si : stepinfo) : string option =
       if m > x.n then Some "exn invalid_argument"
       else if m = x.n then Some "ok"
       else (set { n = m; g = remove_higher (nat m) x.g; cv = None }; Some "ok")
+  | "diff" ->
+      let y = pool.(int_of_string (List.hd rest)) in
+      set { x with g = ref_diff (nat x.n) x.g (need_cv "difference argument" y); cv = None }; Some "ok"
   | "unconstrain" -> let var = int_of_string (List.hd rest) in
       set { x with g = unconstrain (nat var) x.g; cv = None }; Some "ok"
   | "telapse" ->
@@ -203,10 +234,17 @@ let apply (si : stepinfo) : string option =
              (if not (z_is_zero m) then Some "exn invalid_argument"
               else (set { x with g = unconstrain (nat var) x.g; cv = None }; Some "ok"))
            else if si.op = "gimage" then (set { x with g = gen_image (nat var) a b d m x.g; cv = None }; Some "ok")
-           else (set { x with g = get "gen_preimage" (gen_preimage (nat x.n) (nat var) a b d m x.g); cv = None }; Some "ok")
+           else begin
+             let c = (try List.nth a var with _ -> Z0) in
+             extra_info := [ "gp_branch",
+                             (if z_is_zero m then "plain" else if z_is_zero c then "not-invertible"
+                              else if Z.abs c = Z.abs d then "invertible-unit-ratio" else "invertible-scaled") ];
+             set { x with g = get "gen_preimage" (gen_preimage (nat x.n) (nat var) a b d m x.g); cv = None }; Some "ok"
+           end
        | _ -> failwith "gimage")
   | "relgen" ->
       let g = qgen_of (gen_of_toks rest) in
+      extra_info := [ "gen_kind", List.hd rest ];
       Some ("bool " ^ bool_s (get "subsumes" (subsumes (nat x.n) x.g g)))
   | "freq" ->
       (match rest with
